@@ -51,7 +51,8 @@ void run_round(vh::Rng &r, AsyncPipe &pipe, vh::Sig &sig, std::string &desc, boo
     cfg.buff_min_num = 1 + r.below(3);
     cfg.buff_max_num = cfg.buff_min_num + r.below(4);
     cfg.interval = r.pick(ivals);
-    int nprod = 1 + (int)r.below(8);
+    bool inline_main = r.chance(1, 5);
+    int nprod = inline_main ? 1 : 1 + (int)r.below(8);
     auto sink = std::make_shared<SinkState>();
     if (r.chance(1, 2)) { sink->sleep_every = 1 + (int)r.below(6); sink->sleep_us = 50 + (int)r.below(1500); }
     bool cb_before_init = r.chance(1, 2);
@@ -77,7 +78,8 @@ void run_round(vh::Rng &r, AsyncPipe &pipe, vh::Sig &sig, std::string &desc, boo
                 }
             };
             int k = (int)r.below(10);
-            if (k < 6) { st.kind = 0; st.sizes.push_back(pick_size()); }
+            if (inline_main) { st.kind = 0; st.sizes.push_back(s == 0 ? cfg.buff_size + 1 + r.below(cfg.buff_size) : pick_size()); if (s >= (int)r.below(3)) nsteps = s + 1; }
+            else if (k < 6) { st.kind = 0; st.sizes.push_back(pick_size()); }
             else if (k < 8) { st.kind = 1; int g = 2 + (int)r.below(3); for (int i = 0; i < g; ++i) st.sizes.push_back(pick_size()); }
             else { st.kind = 2; st.pause_us = (int)r.below(cfg.interval * 1500 + 200); }
             size_t sum = 0;
@@ -110,9 +112,7 @@ void run_round(vh::Rng &r, AsyncPipe &pipe, vh::Sig &sig, std::string &desc, boo
     if (!ok) { vh::viol("api/initialize-failed", "initialize() refused a valid configuration"); return; }
     if (!cb_before_init) pipe.setCallback(cb);
 
-    std::vector<std::thread> th;
-    for (int p = 0; p < nprod; ++p) {
-        th.emplace_back([&pipe, &prods, p]() {
+    auto produce = [&pipe, &prods](int p) {
             Producer &P = prods[p];
             uint64_t k = 0;   // running byte index of this producer
             auto make = [&](size_t n) {
@@ -134,9 +134,17 @@ void run_round(vh::Rng &r, AsyncPipe &pipe, vh::Sig &sig, std::string &desc, boo
                     pipe.appendUnlock();
                 }
             }
-        });
+    };
+    std::vector<std::thread> th;
+    if (inline_main) {
+        // short-lived pipe: the thread that initialised it appends at once and goes straight on to cleanup(), so
+        // the background thread may not even have reached its loop when the stop flag is raised
+        produce(0);
+        vh::counter("inline_short_lived_rounds");
+    } else {
+        for (int p = 0; p < nprod; ++p) th.emplace_back(produce, p);
+        for (auto &t : th) t.join();
     }
-    for (auto &t : th) t.join();
 
     // everything appended; now cleanup (or destroy) must flush and return
     if (destroy_instead) owner->reset();
